@@ -444,7 +444,8 @@ func genC18(rng *hx.Rng, tier string, w *hx.Writer) error {
 			arg += fmt.Sprintf(",slow=%d", rng.Intn(nEp))
 		}
 		c := hx.Case{Entry: "firstevent", Op: 1, Tags: []string{"events", fmt.Sprintf("endpoints:%d", nEp), fmt.Sprintf("drop:%v", drop >= 0), "nt"}}
-		job := &c12job{sub: "c18-events", arg: arg, timeout: 60 * time.Second, group: "event-subscription"}
+		// the slow-endpoint scenarios judge wall-clock bounds: a failure is confirmed by a run on its own
+		job := &c12job{sub: "c18-events", arg: arg, timeout: 60 * time.Second, group: "event-subscription", solo: strings.Contains(arg, "slow=")}
 		job.c = c
 		job.finish = func(out string) (string, bool) {
 			parts := strings.SplitN(out, "|", 3)
